@@ -1195,6 +1195,11 @@ func c07BurstCase(c *mon.Case, retry bool) {
 					superseded[key]++
 				}
 			case k < 13:
+				if len(cx.all) >= 2 && r.IntN(4) == 0 {
+					c.Rec("d", "cancel a context that was replaced earlier", nil)
+					c.Count("replaced_context_cancelled", 1)
+					cx.all[r.IntN(len(cx.all)-1)]()
+				}
 				ctx, tag := cx.fresh()
 				if r.IntN(8) == 0 {
 					// a context that is already done (cancelled / deadline passed): it replaces the previous one all the same
